@@ -23,7 +23,7 @@ sed -i "s#\"/repo/#\"$root/repo/#g" "$root/mc/"*/Cargo.toml
 grep -rl '"/repo/' "$root/mc" --include=*.rs 2>/dev/null | xargs -r sed -i "s#\"/repo/#\"$root/repo/#g"
 sed -i "s#target-dir = .*#target-dir = \"$root/target\"#" "$root/mc/.cargo/config.toml"
 cd "$root/mc" || exit 2
-export CARGO_NET_OFFLINE=true VERIF_OUT_DIR="$root/out" VERIF_REPO_DIR="$root/repo"
+export RUST_LIB_BACKTRACE=0 CARGO_NET_OFFLINE=true VERIF_OUT_DIR="$root/out" VERIF_REPO_DIR="$root/repo"
 if ! cargo build --release --offline --bin "$bin" >"$root/build.log" 2>&1; then
   echo "MACHINERY-ERROR: mutant build failed"; tail -n 30 "$root/build.log"; rc=2
 else
